@@ -421,7 +421,7 @@ func c04Hunt(c *hx.Ctx, r *hx.RNG) {
 		}
 		X, Y, U, z := mkHunt(r, x), mkHunt(r, y), mkHunt(r, u), newZ()
 		name, expectNaN = "FMA", oracle.FMA(x, y, u, 0).NaN
-		if fmaProductOutOfRange(&opCase{op: "FMA", x: x, y: y}) {
+		if fmaProductOutOfRange(&opCase{op: "FMA", x: x, y: y, u: u}) {
 			kf = "fma_product_exponent_out_of_range"
 		}
 		f = func() { z.FMA(X, Y, U) }
